@@ -3,12 +3,12 @@
 # refactoring produced by a sub-agent) to /repo, runs the named checks (dev mode: evidence not touched), undoes it.
 # Expected: exit 0 (or 2 = undecided when an anchor is lost); exit 1 would be a false alarm.
 g=$1; k=$2; shift; shift
-p=/verif/benign/$g/benign_$k.diff
+p=/verif/${BENDIR:-benign}/$g/benign_$k.diff
 git -C /repo apply $p || exit 9
 for id in "$@"; do
   s=$(date +%s)
   VERIF_DEV_RUN=1 /verif/vcheck $id > /tmp/ben_${g}_${k}_$id.log 2>&1; rc=$?
   echo "$g/$k $id rc=$rc $(( $(date +%s) - s ))s $(grep -E '^(VIOLATION|UNDECIDED|KNOWN)' /tmp/ben_${g}_${k}_$id.log | head -2 | cut -c1-300)"
 done
-git -C /repo checkout -- .
+git -C /repo checkout -- . && git -C /repo clean -fdq
 git -C /repo status --short
